@@ -97,6 +97,14 @@ func (c05) Gen(r *world.Rng, tier string, n int) interface{} {
 		sc.Handlers, sc.Table = hs.Handlers, hs.Table
 		for i := r.Intn(4); i > 0; i-- {
 			ev := hs.Kinds[r.Intn(len(hs.Kinds))]
+			if mode == 0 && ev.Kind == world.EvINT && r.Chance(1, 3) {
+				// the device supplies some other instruction (the program does not survive that in general - the
+				// emulator resumes behind the overlaid bytes - but every Step is still checked on its own)
+				a := gen.DataBase + 0x100 + uint16(r.Intn(0x200))
+				lo, hi := uint8(a), uint8(a>>8)
+				ev.Data = hex.EncodeToString([][]uint8{{0x01, lo, hi}, {0x11, lo, hi}, {0x21, lo, hi}, {0x3a, lo, hi}, {0x32, lo, hi}, {0x2a, lo, hi}, {0x22, lo, hi},
+					{0x00}, {0x3c}, {0x34}, {0x7e}, {0xd3, r.Byte()}, {0xdb, r.Byte()}, {0xed, 0x4b, lo, hi}, {0xdd, 0x21, lo, hi}, {0xcb, 0xc6}, {0x3e, r.Byte()}}[r.Intn(17)])
+			}
 			if r.Bool() {
 				ev.AtTick = uint64(r.Range(1, 1500))
 			} else {
@@ -190,6 +198,36 @@ func fmtAddrs(a []uint16) string {
 
 // checkStepBus compares the recorded history of one (non-acceptance) Step with
 // the model's expectation computed from the pre-state. after: CPU after.
+// instrBytes returns the pre-Step contents of the instruction's bytes.
+func instrBytes(exp model.BusExp, pc uint16, peek func(uint16) uint8) []uint8 {
+	b := make([]uint8, exp.Len)
+	for i := range b {
+		b[i] = peek(pc + uint16(i))
+	}
+	return b
+}
+
+// checkFetchValues: the bytes of the instruction at PC are fetched before the instruction does
+// anything, so every one of them is read with the value memory held before the Step (a push or
+// store of the same instruction that lands on its own operand bytes must not be seen by the fetch).
+func checkFetchValues(exp model.BusExp, pre []uint8, before z80.States, log []world.Acc) *Violation {
+	used := make([]bool, len(log))
+	for i, want := range pre {
+		addr := before.PC + uint16(i)
+		found := false
+		for j, a := range log {
+			if !used[j] && a.Kind == world.MR && a.Addr == addr && a.Val == want {
+				used[j], found = true, true
+				break
+			}
+		}
+		if !found {
+			return viol("bus-fetch-values", "%s at PC=%04x: instruction byte %d at %04x held %02x before the Step but no read of that address returned it; history %s", exp.Class, before.PC, i, addr, want, world.FmtLog(log))
+		}
+	}
+	return nil
+}
+
 func checkStepBus(exp model.BusExp, before z80.States, after *z80.CPU, log []world.Acc) *Violation {
 	if after.IO == nil {
 		// no device: nothing to see on the port side, the device "returns" 0
@@ -197,8 +235,15 @@ func checkStepBus(exp model.BusExp, before z80.States, after *z80.CPU, log []wor
 		e2.Ports = nil
 		for i := range e2.Writes {
 			if e2.Writes[i].FromPort {
+				// what an absent device "returns" is not specified (0, 0xFF ...): take the value from the history
 				e2.Writes = append([]model.AV(nil), e2.Writes...)
-				e2.Writes[i] = model.AV{Addr: e2.Writes[i].Addr, Val: 0}
+				v := uint8(0)
+				for _, a := range log {
+					if a.Kind == world.MW && a.Addr == e2.Writes[i].Addr {
+						v = a.Val
+					}
+				}
+				e2.Writes[i] = model.AV{Addr: e2.Writes[i].Addr, Val: v}
 			}
 		}
 		for _, a := range log {
@@ -379,6 +424,42 @@ func opKey(b []uint8) string {
 	return hex.EncodeToString(b[:1])
 }
 
+// checkAcceptIM0: a mode-0 acceptance whose supplied instruction is not RST/CALL. Its bytes come from
+// the interrupting device: no byte is fetched from memory, and the data accesses are exactly those of
+// that instruction (the bus model evaluated with the device's bytes standing in at PC).
+// expectAcceptIM0 is evaluated BEFORE the Step (it reads pre-Step memory); nil = no verdict.
+func expectAcceptIM0(before z80.States, data []uint8, peek func(uint16) uint8) *model.BusExp {
+	ov := func(a uint16) uint8 {
+		if off := int(a - before.PC); off < len(data) {
+			return data[off]
+		}
+		return peek(a)
+	}
+	exp := model.BusExpect(preState(before), ov)
+	if !exp.Known || exp.Len != len(data) || isPushing(exp.Class) {
+		return nil // supplied bytes are not exactly one modelled instruction, or one that pushes a return address (C07's subject)
+	}
+	for _, a := range append(append([]uint16(nil), exp.Reads...), addrsOf(exp.Writes)...) {
+		if int(a-before.PC) < len(data) {
+			return nil // data access inside the overlaid range: statement-silent
+		}
+	}
+	exp.Len = 0 // nothing is fetched from memory
+	return &exp
+}
+
+func isPushing(class string) bool {
+	return strings.Contains(class, "CALL") || strings.Contains(class, "RST") || strings.Contains(class, "PUSH")
+}
+
+func addrsOf(w []model.AV) []uint16 {
+	var out []uint16
+	for _, x := range w {
+		out = append(out, x.Addr)
+	}
+	return out
+}
+
 func isInvalidWarn(env *Env) bool {
 	return strings.Contains(env.LogBuf.String(), "invalid code")
 }
@@ -409,6 +490,7 @@ func (c05) Exec(sci interface{}, env *Env) *Violation {
 		m.CPU.Interrupt = nil
 		m.CPU.HALT = false
 		exp := model.BusExpect(preState(st), peek)
+		pre := instrBytes(exp, st.PC, peek)
 		var req *z80.Interrupt
 		m.Hook = nil
 		if c.EvAt > 0 {
@@ -438,6 +520,11 @@ func (c05) Exec(sci interface{}, env *Env) *Violation {
 		}
 		what := fmt.Sprintf("case %d [%s] regs{%s}", i, c.Bytes, world.FmtStates(st))
 		if v := checkStepBus(exp, st, m.CPU, m.Bus.Log); v != nil {
+			v.Detail = what + ": " + v.Detail
+			v.Hint = i
+			return v
+		}
+		if v := checkFetchValues(exp, pre, st, m.Bus.Log); v != nil {
 			v.Detail = what + ": " + v.Detail
 			v.Hint = i
 			return v
@@ -473,6 +560,8 @@ func c05Program(sc *C05Sc, env *Env) *Violation {
 		m.CPU.IO = nil
 	}
 	peek := func(a uint16) uint8 { return m.Bus.Mem[a] }
+	prevEI := false
+	wantRETI, wantRETN := 0, 0
 	for step := 0; step < sc.MaxSteps; step++ {
 		m.Boundary()
 		if sc.Swap != 0 && !sc.NilIO {
@@ -484,35 +573,66 @@ func c05Program(sc *C05Sc, env *Env) *Violation {
 		before := m.CPU.States
 		req := m.CPU.Interrupt
 		willAccept := req != nil && (req.Type == z80.NMIType || before.IFF1)
-		var exp model.BusExp
-		if !willAccept {
-			exp = model.BusExpect(preState(before), peek)
+		exp := model.BusExpect(preState(before), peek)
+		pre := instrBytes(exp, before.PC, peek)
+		isEI := peek(before.PC) == 0xfb
+		var expAcc *model.BusExp
+		if willAccept && req.Type != z80.NMIType && before.IM == 0 {
+			if d := req.Data; len(d) > 0 && !(len(d) == 1 && d[0]&0xc7 == 0xc7) && d[0] != 0xcd {
+				expAcc = expectAcceptIM0(before, d, peek)
+			}
 		}
 		env.LogBuf.Reset()
 		si := m.StepNoBoundary()
 		env.Steps++
 		what := fmt.Sprintf("step %d regs{%s}", step, world.FmtStates(before))
 		if si.Accepted {
-			if v := checkAcceptBus(before, req, m.Bus.Log); v != nil {
+			var v *Violation
+			if d := req.Data; req.Type != z80.NMIType && before.IM == 0 && len(d) > 0 && !(len(d) == 1 && d[0]&0xc7 == 0xc7) && d[0] != 0xcd {
+				if expAcc != nil {
+					v = checkStepBus(*expAcc, before, m.CPU, m.Bus.Log)
+					env.Fire("mode0-general-instruction-acceptance-checked")
+				}
+			} else {
+				v = checkAcceptBus(before, req, m.Bus.Log)
+			}
+			if v != nil {
 				v.Detail = what + ": " + v.Detail
 				return v
 			}
 			env.Fire("acceptance-step-checked")
 			env.NonTrivial = true
+			prevEI = false
 			continue
 		}
-		if willAccept {
+		if willAccept && !(prevEI && req.Type != z80.NMIType) {
+			// (one instruction after the enabling EI is allowed for a maskable request, as on silicon)
 			return viol("acceptance-expected", "%s: request %s was not consumed although acceptable", what, world.FmtRequest(req))
+		}
+		prevEI = isEI
+		if exp.Known && exp.Class == "RETN/RETI" && !isInvalidWarn(env) {
+			if peek(before.PC+1) == 0x4d {
+				wantRETI++
+			} else {
+				wantRETN++
+			}
 		}
 		if isInvalidWarn(env) || !exp.Known {
 			env.Class("program/unmodelled-or-unimplemented")
 		} else if v := checkStepBus(exp, before, m.CPU, m.Bus.Log); v != nil {
 			v.Detail = what + ": " + v.Detail
 			return v
+		} else if v := checkFetchValues(exp, pre, before, m.Bus.Log); v != nil {
+			v.Detail = what + ": " + v.Detail
+			return v
 		}
 		if si.Halted && m.Quiescent() {
 			break
 		}
+	}
+	// notifications: exactly once per executed RETN / RETI, at no other time (whole program, any instruction mix)
+	if m.Cnt.RETI != wantRETI || m.Cnt.RETN != wantRETN {
+		return viol("notifications", "the program executed %d RETI and %d RETN (bus history); the handlers were notified %d and %d times", wantRETI, wantRETN, m.Cnt.RETI, m.Cnt.RETN)
 	}
 	env.Ticks += m.Bus.Tick
 	env.FireN("interrupts-accepted-in-program", uint64(m.Accepted))
